@@ -106,12 +106,17 @@ def configs(tier):
     import itertools
     import panqec.codes as pc
     out = []
+    # flat lattices whose membrane representative has weight 256 = 2^8 (fixed-width accumulators in the weight
+    # computation wrap exactly there) while d = 2 keeps the query trivial
+    wide = ['RotatedPlanar3DCode(2,16,16)', 'Planar3DCode(2,16,16)'] + \
+        (['Toric3DCode(2,16,16)', 'RotatedToric3DCode(2,16,16)', 'HollowPlanar3DCode(2,16,16)', 'RotatedPlanar3DCode(3,6,43)']
+         if tier != 'quick' else [])
     if tier == 'quick':
         for c in common.code_configs(tier, deformed=True):
             cls, size, name, axis = common.parse_cfg(c)
             if getattr(pc, cls)(*size).n <= 100:
                 out.append(c)
-        return out
+        return out + wide
     # thorough: every deformation on the thorough size list, plus larger undeformed lattices (2-D sides up to
     # 9, 3-D sides up to 5); the solver decides d <= 9 within the time-out (d >= 10 was tried: unknown)
     seen = set()
@@ -133,7 +138,7 @@ def configs(tier):
             code = getattr(pc, cls)(*size)
             if code.n <= 700 and int(code.d) <= 9:
                 out.append(common.cfg_name(cls, size))
-    return out
+    return out + wide
 
 
 def main(argv=None):
